@@ -202,6 +202,10 @@ def isinstance1(I, v, cname):
             return cname in h.fields['isinstance']
         return cname == 'object' or h.cls == cname
     if isinstance(v, VAny):
+        if v.kindtag == 'regex':
+            return cname in ('re.Pattern', 'object')
+        if cname == 're.Pattern':
+            return z3.Function('isinstance_re_Pattern', Val, z3.BoolSort())(v.t)
         return z3.Function('isinstance_' + cname.replace('.', '_'), Val, z3.BoolSort())(v.t)
     raise Unsupported('isinstance of %r' % (v,))
 
@@ -254,6 +258,8 @@ def call_class(I, c, args, kwargs, fr, node):
         return VTuple(I.concrete_items(args[0]))
     if n == 'type':
         v = args[0]
+        if isinstance(v, VAny) and v.kindtag == 'regex':
+            return VClass('re.Pattern')
         if isinstance(v, VInt):
             return VClass('int')
         if isinstance(v, VObj) and ctx.heap[v.oid].kind == 'list':
@@ -508,10 +514,22 @@ def symlist_method(I, self, meth, args, kwargs):
         v = args[0]
         comps = h.fields['comps']
         vals = [v] if h.fields.get('scalar') else (v.items if isinstance(v, VTuple) else None)
-        if vals is None or len(vals) != len(comps):
+        if not h.fields.get('pat') and (vals is None or len(vals) != len(comps)):
             raise Unsupported('symlist.append of %r' % (v,))
         n = h.fields['len'].t
         newc = []
+        if h.fields.get('pat'):
+            # list of pattern elements: the class EOF / TIMEOUT or a payload value
+            (a_eof, t1), (a_to, t2), (a_val, t3) = comps
+            if isinstance(v, VClass) and v.name in ('EOF', 'TIMEOUT'):
+                newc = [(z3.Store(a_eof, n, z3.BoolVal(v.name == 'EOF')), t1), (z3.Store(a_to, n, z3.BoolVal(v.name == 'TIMEOUT')), t2), (a_val, t3)]
+            elif hasattr(v, 't') and v.t.sort() == a_val.sort().range():
+                newc = [(z3.Store(a_eof, n, z3.BoolVal(False)), t1), (z3.Store(a_to, n, z3.BoolVal(False)), t2), (z3.Store(a_val, n, v.t), t3)]
+            else:
+                raise Unsupported('append of %r to a pattern list' % (v,))
+            h.fields['comps'] = newc
+            h.fields['len'] = VInt(z3.simplify(n + 1))
+            return VNone()
         for (arr, ty), x in zip(comps, vals):
             if isinstance(x, VPat):
                 x = I.unopt(x, 'list element')
